@@ -305,6 +305,12 @@ class DeviceBench:
                         trail_nz += 1 if b else 0          # after the framing only logical idle may follow in the word
                     else:
                         data.append(b)
+            if len(data) > 1024 + 4:
+                # longer than any data packet payload [USB3.2 8.6]: reported by size only (rejected by the specification as
+                # an unexpected event; keeps the CRC-32 work of the trace check bounded)
+                st["dph"] = None
+                log({"e": "ddp_runaway", "n": len(data)})
+                return
             if st["dph"] is None:
                 log({"e": "ddp_orphan", "n": len(data)})
                 return
